@@ -10,6 +10,7 @@ The oracle evaluates the property statement directly on the implementation trace
 """
 import itertools
 import json
+import time
 from concurrent.futures import ThreadPoolExecutor
 
 from lib import Raw, coqlit
@@ -231,7 +232,9 @@ def run(ctx):
 
     # ------------------------------------------------------------ stream world
     cases = gen_cases(ctx)
+    t0 = time.time()
     traces, err = run_world(ctx, cases)
+    ctx.log(f'world: {len(cases)} cases on the implementation in {time.time() - t0:.1f}s')
     if err:
         ctx.broken('correspondence', 'world (implementation run crashed)', err)
         return ctx.finish('implementation run crashed', [], [])
@@ -267,18 +270,7 @@ def run(ctx):
         c, tr = crashed[0]
         ctx.broken('correspondence', 'world (harness could not run a case)',
                    {'cases': len(crashed), 'first': c, 'trace': tr})
-    mism, err = ctx.coq_mism('world', HEADER, 'trace_eqb', 'run_case', pairs, deps=['Tls/Model.vo'])
-    if err:
-        ctx.broken('correspondence', 'world (coq evaluation)', err)
-    if mism:
-        ok_cases = [(c, tr) for c, tr in zip(cases, traces) if (c, tr) not in crashed]
-        c, tr = ok_cases[mism[0]]
-        model = ctx.coq_eval(HEADER, f'run_case {lit_case(c)}')
-        ctx.broken('correspondence', 'world',
-                   {'disagreements': len(mism), 'first_case': c, 'impl': {'statuses': statuses(c, tr),
-                                                                           'events': [decode(x) for x in ev_codes(tr)],
-                                                                           'start_msg': tr.get('start_msg')},
-                    'model': model[-1800:]})
+    streams = [('world', [(f'(AWorld {x})', y) for x, y in pairs])]
     ctx.count('world', len(pairs), keys, **hist)
     if pairs:
         i = next((k for k, c in enumerate(cases) if c['c_mode'] == 'enforced' and c['p_tls'] and c['ops']), 0)
@@ -289,6 +281,7 @@ def run(ctx):
                                          for ld in ('folder', 'direct') for ca in ('none', 'given', 'missing')
                                          for cy in (False, True)]
     r = ctx.impl('c19_impl', {'stream': 'ctxflags', 'cases': ccases})
+    ctx_results = r.get('results', [])
     if r.get('_crash'):
         ctx.broken('correspondence', 'ctxflags', r.get('stderr'))
     else:
@@ -308,18 +301,11 @@ def run(ctx):
             else:
                 exp = [1 if res.get('status') == 'FileNotFoundError' else 8]
             if c['loader'] == 'defaults':
-                cp.append(('inl tt', zl(exp)))
+                cp.append(('ADefaults', zl(exp)))
             else:
                 ca = {'none': 'CaNone', 'given': 'CaGiven', 'missing': 'CaMissing'}[c['ca']]
-                cp.append((f'inr ({ca}, {coqlit(c["cyphers"])})', zl(exp)))
-        mism, err = ctx.coq_mism('ctxflags', HEADER, 'zlist_eqb',
-                                 'fun c : unit + cafile * bool => match c with inl u => run_defaults u | inr p => run_ctx p end',
-                                 cp, deps=['Tls/Model.vo'])
-        if err:
-            ctx.broken('correspondence', 'ctxflags (coq evaluation)', err)
-        for i in mism[:1]:
-            ctx.broken('correspondence', 'ctxflags', {'disagreements': len(mism), 'first_case': ccases[i],
-                                                      'impl': r['results'][i]})
+                cp.append((f'(ACtx {ca} {coqlit(c["cyphers"])})', zl(exp)))
+        streams.append(('ctxflags', [(x, f'({y}, [])') for x, y in cp]))
         ctx.count('ctxflags', len(cp), [b for _, b in cp], exhaustive=True,
                   tls_floor={'min_tls12': all(x.get('client', {}).get('min_tls12', True) for x in r['results']),
                              'no_sslv3': all(x.get('client', {}).get('no_sslv3', True) for x in r['results'])})
@@ -328,6 +314,7 @@ def run(ctx):
     # ------------------------------------------------------------ stream clientcls
     kcases = [{'cls': cl, 'ctx': cx} for cl in ('sync', 'async') for cx in ('none', 'client', 'server')]
     r = ctx.impl('c19_impl', {'stream': 'clientcls', 'cases': kcases})
+    cls_results = r.get('results', [])
     if r.get('_crash'):
         ctx.broken('correspondence', 'clientcls', r.get('stderr'))
     else:
@@ -342,13 +329,35 @@ def run(ctx):
             cx = {'none': 'None', 'client': '(Some PClient)', 'server': '(Some PServer)'}[c['ctx']]
             code = 300000 + (10 if res['https'] else 0) + {'none': 0, 'client': 1, 'server': 2}[c['ctx']] + (0 if res['same_ctx'] else 50)
             kp.append((cx, str(code)))
-        mism, err = ctx.coq_mism('clientcls', HEADER, 'Z.eqb', 'fun c => code_event (mk_http_connection RP c)', kp,
-                                 deps=['Tls/Model.vo'])
-        if err:
-            ctx.broken('correspondence', 'clientcls (coq evaluation)', err)
-        for i in mism[:1]:
-            ctx.broken('correspondence', 'clientcls', {'first_case': kcases[i], 'impl': r['results'][i]})
+        streams.append(('clientcls', [(f'(AClient {x})', f'([{y}], [])') for x, y in kp]))
         ctx.count('clientcls', len(kp), [(c['cls'], c['ctx']) for c in kcases], exhaustive=True)
+
+    # ------------------------------------------------------------ model side: one Coq evaluation for all streams
+    t0 = time.time()
+    flat = [(name, i, a, b) for name, prs in streams for i, (a, b) in enumerate(prs)]
+    mism, err = ctx.coq_mism('all', HEADER, 'trace_eqb', 'run_any', [(a, b) for _, _, a, b in flat], deps=['Tls/Model.vo'])
+    ctx.log(f'model evaluated on {len(flat)} cases in {time.time() - t0:.1f}s, {len(mism)} disagreements')
+    if err:
+        ctx.broken('correspondence', 'coq evaluation', err)
+    by_stream = {}
+    for m in mism:
+        by_stream.setdefault(flat[m][0], []).append(flat[m][1])
+    if 'world' in by_stream:
+        ok_cases = [(c, tr) for c, tr in zip(cases, traces) if not any(c is cc for cc, _ in crashed)]
+        c, tr = ok_cases[by_stream['world'][0]]
+        model = ctx.coq_eval(HEADER, f'run_case {lit_case(c)}')
+        ctx.broken('correspondence', 'world',
+                   {'disagreements': len(by_stream['world']), 'first_case': c,
+                    'impl': {'statuses': statuses(c, tr), 'events': [decode(x) for x in ev_codes(tr)],
+                             'start_msg': tr.get('start_msg')},
+                    'model': model[-1800:]})
+    if 'ctxflags' in by_stream:
+        i = by_stream['ctxflags'][0]
+        ctx.broken('correspondence', 'ctxflags', {'disagreements': len(by_stream['ctxflags']), 'first_case': ccases[i],
+                                                  'impl': ctx_results[i]})
+    if 'clientcls' in by_stream:
+        i = by_stream['clientcls'][0]
+        ctx.broken('correspondence', 'clientcls', {'first_case': kcases[i], 'impl': cls_results[i]})
 
     if ctx.thorough:
         hits = ctx.gate_grep(['Tls', 'Common'])
@@ -360,7 +369,7 @@ def run(ctx):
         rule='world: one real provider + one real consumer per configuration (quick: all 72 combinations of provider '
              'TLS x provider server (own/shared http/shared https) x consumer mode (none/optional/enforced/enforced '
              'without container) x consumer sink server, alternative host names, device-address variant and history '
-             'drawn at random; thorough: the full product of 1728 configurations) driven through start-up, a random list of '
+             'drawn at random; thorough: the full product of 864 configurations, the 432 that reach start_all twice) driven through start-up, a random list of '
              'probe/getmdib/operate/notify/renew/getstatus/unsubscribe+subscribe and one of two shutdown orders; the set '
              'of events (addresses by carrying element, SOAP clients by ssl_context argument, connection objects, '
              'connection attempts, wrap_socket calls) and the start-up statuses are compared with Tls.Model.run_case; '
